@@ -255,6 +255,10 @@ func (d *DFPNSolver) mid(g *tak.Position, bounds proofNumbers, current entry) (e
 		current.bounds = d.terminalBounds(g, tak.NoColor)
 		return current, 0
 	}
+	// Bounds that rest on a repetition cut below this node hold only on
+	// the current line of play (the repeated position may be an ancestor
+	// of this node); they must not be stored as facts about the position.
+	repetitions := d.stats.Repetition
 
 	if d.debug > 6 && len(d.stack) > 0 {
 		log.Printf(" depth=%d toMove=%s move=%s current=(%d,%d) bounds=(%d,%d)",
@@ -349,7 +353,9 @@ func (d *DFPNSolver) mid(g *tak.Position, bounds proofNumbers, current entry) (e
 		d.killers[depth] = current.pv
 	}
 
-	d.table.store(&current)
+	if d.stats.Repetition == repetitions {
+		d.table.store(&current)
+	}
 
 	return current, uint64(localWork)
 }
